@@ -133,10 +133,14 @@ def init_state(task, ar, full=False):
     return mps.random_mps(I, D_total=ar["D"], dtype=ar.get("dtype", "float64"), **kw)
 
 
-def reachable_charge(g):
+def reachable_charge(g, balanced=False):
     sp, t = g.task.space, g.task
     if not sp.sym.nsym:
         return None
+    if balanced:
+        # the sector of an alternating configuration: the largest one, where bond spaces can be space-maximal
+        ts = [sp.site.ts[i % len(sp.site.ts)] for i in range(t.N)]
+        return list(sp.sym.fuse(ts, [1] * t.N))
     return list(sp.sym.fuse([g.rng.choice(sp.site.ts) for _ in range(t.N)], [1] * t.N))
 
 
@@ -342,18 +346,22 @@ class MTdvpStart(e1.Op):
         if t.N < 2:
             return None
         method = rng.choice(["1site", "1site", "2site", "12site"])
+        if t.space.d ** t.N > 256:
+            return None
         nsnap = rng.choice([1, 2, 3])
         times = [0.0]
         for _ in range(nsnap):
-            times.append(round(times[-1] + rng.choice([0.05, 0.1, 0.13, 0.2, 0.3]), 6))
+            times.append(round(times[-1] + rng.choice([0.05, 0.1, 0.13, 0.2]), 6))
         u = rng.choice([[0.0, 1.0], [0.0, 1.0], [1.0, 0.0], [0.6, 0.8]])
         tdep = None
-        if rng.random() < 0.3:
+        if rng.random() < 0.3 and t.space.d ** t.N <= 81:
             tdep = [round(rng.uniform(0.5, 1.5), 3), round(rng.uniform(-2, 2), 3)]
         args = {"H": gen_H(g, nparts=2 if tdep else None), "n": reachable_charge(g), "D": rng.choice([2, 4, 8]), "dtype": "complex128",
-                "method": method, "order": rng.choice(["2nd", "2nd", "4th"]), "times": times, "dt": rng.choice([0.02, 0.03, 0.05, 0.07, 0.1]), "u": u,
+                "method": method, "order": rng.choice(["2nd", "2nd", "4th"]), "times": times, "dt": rng.choice([0.03, 0.05, 0.07, 0.1]) if times[-1] <= 0.3 else rng.choice([0.05, 0.07, 0.1]), "u": u,
                 "normalize": rng.random() < 0.5, "subtract_E": rng.random() < 0.3, "precompute": rng.random() < 0.5, "full": rng.random() < 0.6,
                 "yield_initial": rng.random() < 0.2, "tdep": tdep, "opts_svd": {"tol": 1e-14, "D_total": 4096}}
+        if args["full"] and rng.random() < 0.7:
+            args["n"] = reachable_charge(g, balanced=True)
         return {"op": "m_tdvp_start", "in": [], "args": args}
 
     def run(self, task, rec, ins):
@@ -392,7 +400,7 @@ def exact_step(w, ar, t0, t1):
     if w.info["Hd"] is not None:
         return scipy.linalg.expm(-u * (t1 - t0) * w.info["Hd"]) @ w.info["ref"]
     # time dependent: fine-grid product of midpoint exponentials
-    n = 400
+    n = 200
     h = (t1 - t0) / n
     v = w.info["ref"]
     for k in range(n):
@@ -473,14 +481,17 @@ class MTdvpStep(e1.Op):
         mask = sector_mask(task, w.info["sector"], len(d))
         if np.linalg.norm(d[~mask]) > 1e-9 * max(1.0, nrm):
             raise V(prop, "charge-sector", "%s: state left its charge sector" % what)
-        if not w.psi.is_canonical(to="first", tol=1e-8):
-            raise V(prop, "canonical", "%s: psi is not canonical to the first site" % what)
+        # canonical form: every site but the first is an isometry towards the first site (the terminal tensor carries the state;
+        # '2site' with normalize=False keeps the norm there instead of in .factor, so is_canonical() is not used here)
+        if w.psi.pC is not None:
+            raise V(prop, "canonical", "%s: a central block is left pending" % what)
+        e2.check_isometries(task, w.psi, "first", prop, what)
         real_time = abs(u.real) < 1e-15
-        if ar["normalize"] and abs(nrm - 1) > 1e-8:
+        if ar["normalize"] and abs(nrm - 1) > 1e-6:
             raise V(prop, "norm", "%s: |psi| = %.12g with normalize=True" % (what, nrm))
         if real_time and not ar["tdep"]:
             n0 = float(np.linalg.norm(w.info["psi0"]))
-            if abs(nrm - n0) > 1e-7 * n0:
+            if not ar["normalize"] and abs(nrm - n0) > 1e-5 * n0:
                 raise V(prop, "norm-conserved", "%s: norm %.12g -> %.12g in real-time evolution" % (what, n0, nrm))
             Hd = w.info["Hd"]
             e0 = float(np.real(np.vdot(w.info["psi0"], Hd @ w.info["psi0"]))) / n0 ** 2
@@ -488,15 +499,25 @@ class MTdvpStep(e1.Op):
             Wd = float(np.linalg.norm(Hd, 2)) + 1.0
             if abs(e1_ - e0) > 1e-6 * Wd:
                 raise V(prop, "energy-conserved", "%s: energy %.12g -> %.12g in real-time evolution" % (what, e0, e1_))
-        if ar["full"]:
+        dmax = tuple(min(task.space.d ** l, task.space.d ** (task.N - l)) for l in range(task.N + 1))
+        if ar["full"] and tuple(w.psi.get_bond_dimensions()) != dmax:
+            # Schmidt-rank-maximal inside a narrow charge sector is not enough: the projector-splitting integrator is exact only
+            # when the bond spaces span the whole left (or right) Hilbert space, i.e. D = min(d^l, d^(N-l)) at every cut
+            wd.stats["full_but_not_space_maximal"] += 1
+        elif ar["full"]:
             # maximal bond dimension: the evolved state coincides with the dense exponential (up to a global phase if subtract_E)
             a, b = d, ref
-            if ar["subtract_E"] or ar["normalize"]:
-                ov = np.vdot(b, a)
-                if abs(ov) > 0:
-                    a = a * (abs(ov) / ov) if ar["subtract_E"] else a
+            if ar["subtract_E"]:
+                # subtracting the instantaneous energy multiplies the state by a scalar (a phase in real time, a real factor
+                # in imaginary time): compare the rays
+                na_, nb_ = float(np.linalg.norm(a)), float(np.linalg.norm(b))
+                if na_ > 0 and nb_ > 0:
+                    a, b = a / na_, b / nb_
+                    ov = np.vdot(b, a)
+                    if abs(ov) > 0:
+                        a = a * (abs(ov) / ov)
             err = float(np.linalg.norm(a - b)) / max(1e-300, float(np.linalg.norm(b)))
-            tol = 1e-6 if not ar["tdep"] else None
+            tol = 1e-5 if not ar["tdep"] else None
             if tol is not None and err > tol:
                 raise V(prop, "exact-on-full-manifold", "%s: evolved state differs from expm(-u t H) psi0 by %.3e (relative)" % (what, err))
             wd.stats["full_manifold_snapshots"] += 1
@@ -523,13 +544,13 @@ class MTdvpRelations(e1.Op):
 
     def gen(self, g):
         rng, t = g.rng, g.task
-        if t.N < 2 or t.N > 5:
+        if t.N < 2 or t.space.d ** t.N > 64:
             return None
         tdep = [round(rng.uniform(0.5, 1.5), 3), round(rng.uniform(-2, 2), 3)] if rng.random() < 0.6 else None
-        T = rng.choice([0.2, 0.3, 0.4])
+        T = rng.choice([0.15, 0.2, 0.3])
         return {"op": "m_tdvp_relations", "in": [], "args": {"H": gen_H(g, nparts=2), "n": reachable_charge(g), "dtype": "complex128", "T": T,
-                                                            "dt": rng.choice([0.03, 0.07, 0.09, 0.11, 0.13]), "order": rng.choice(["2nd", "4th"]),
-                                                            "method": rng.choice(["1site", "1site", "2site", "12site"]), "tdep": tdep, "u": [0.0, 1.0],
+                                                            "dt": rng.choice([0.04, 0.07, 0.09, 0.11, 0.13]), "order": rng.choice(["2nd", "4th"]),
+                                                            "method": rng.choice(["1site", "1site", "1site", "2site", "12site"]), "tdep": tdep, "u": [0.0, 1.0],
                                                             "precompute": rng.random() < 0.5, "kind": rng.choice(["split", "adjusted", "order"]) if tdep else rng.choice(["split", "adjusted"])}}
 
     def evolve(self, task, ar, times, dt):
@@ -578,7 +599,7 @@ class MTdvpRelations(e1.Op):
             H0, H0d, H1, H1d, f = h_of_t(task, ar["H"], ar["tdep"])
             core.current_world().reseed(0, rec["id"])
             psi0 = dense_state(task, init_state(task, dict(ar, full=True), full=True))
-            n = 800
+            n = 600
             h = T / n
             ref = psi0
             for k in range(n):
